@@ -16,7 +16,10 @@ type Options struct {
 	Shard     int // this worker
 	Shards    int // number of workers (0/1 = no sharding)
 	Expired   func() bool
-	Setup     func(s *S)
+	// Discard is called for executions that are run only to discover the tree (another worker
+	// owns and checks them): release whatever the body left behind (scratch directories).
+	Discard func(x *Exec)
+	Setup   func(s *S)
 }
 
 type Stats struct {
@@ -105,6 +108,9 @@ func Explore(opt Options, body func(s *S) any, check func(x *Exec)) Stats {
 			check(x)
 		} else {
 			st.Redundant++
+			if opt.Discard != nil {
+				opt.Discard(x) // executions run only to discover the tree still own scratch state
+			}
 		}
 		// children: deviate at every later point
 		var kids []item
